@@ -1,7 +1,7 @@
-(* C05 -- statements only; see DESIGN.md section 6 C05.  Theorems are added as the proofs land;
-   the witnesses below are evaluated in the kernel on the whole-parser model. *)
+(* C05 -- every node carries a valid, nested, ordered and faithful source range.  Statements only; proofs in
+   proofs/RangeProofs.v; see DESIGN.md section 6 C05. *)
 From Coq Require Import String.
-From MdIt Require Import Prims Tables Tree Render Core Dump Dispatch.
+From MdIt Require Import Prims Tables Tree Render Block Inline Core Dump Dispatch RangeProofs.
 Local Open Scope string_scope.
 Local Open Scope list_scope.
 Local Open Scope N_scope.
@@ -24,3 +24,58 @@ Example C05_witness_emphasis_range :
 
 *b*" = bs "0:Root()@0-6{};1:Paragraph()@0-1{};2:Text(61)@0-1{};1:Paragraph()@3-6{};2:Em(42)@3-6{};3:Text(62)@4-5{}".
 Proof. vm_compute. reflexivity. Qed.
+
+(* FULL STATEMENT (not proved end to end; decided on every run by the range oracle on every node of
+   generated documents and by the model/implementation correspondence on every range): every node has
+   0 <= start <= end <= len src on character boundaries, the root covers the input, children lie inside
+   their parent in source order, a one-line Text node selects its own text and an escape / character
+   reference node selects its markup.
+
+   PROVED PARTS (model, every parser configuration and input):
+   - the root's range is [0, len src) whatever the core chain does to the tree;
+   - a text node is created with content = src[a..b) and the positions of a and b as its range, and
+     grows by src[a..b) at its end with its range end moved to the position of b;
+   - an escape node's / character reference node's markup is the source text under its range. *)
+
+Theorem C05_root_covers_input : forall fuel m src d,
+  snd (parse fuel m src) = inr d -> n_map (d_root d) = Some (SAbs 0, SAbs (len src)).
+Proof. exact root_covers_input. Qed.
+
+Theorem C05_text_created_faithful : forall st a b st',
+  match last_child st with Some x => is_text_kind x = false | None => True end ->
+  trailing_text_push st a b = inr st' ->
+  exists pa pb, source_pos_for st a = inr pa /\ source_pos_for st b = inr pb /\
+    last_child st' = Some (mk (KText (sub (i_src st) a b)) (Some (pa, pb)) []).
+Proof. exact text_push_fresh. Qed.
+
+Theorem C05_text_extended_faithful : forall st a b st' init c ms me at_ e cs,
+  split_last (n_children (i_node st)) = Some (init, Node (KText c) (Some (ms, me)) at_ e cs) ->
+  trailing_text_push st a b = inr st' ->
+  exists pb, source_pos_for st b = inr pb /\
+    last_child st' = Some (Node (KText (c ++ sub (i_src st) a b)) (Some (ms, pb)) at_ e cs).
+Proof. exact text_push_merge. Qed.
+
+Theorem C05_entity_selects_markup : forall st st' n,
+  rule_entity st false = inr (st', Some n) -> pushed_special st st' n.
+Proof. exact entity_markup. Qed.
+
+Theorem C05_escape_selects_markup : forall st st' n, rule_escape st false = inr (st', Some n) ->
+  exists rest, irest st = inr rest /\
+    ((exists m, last_child st' = Some (mk KHardbreak m [])) \/
+     exists content pa pb,
+       last_child st' = Some (mk (KTextSpecial content (takeN n rest) false) (Some (pa, pb)) []) /\
+       source_pos_for st (i_pos st) = inr pa /\ source_pos_for st (i_pos st + n) = inr pb).
+Proof. exact escape_markup. Qed.
+
+Example C05_nonvacuous :
+  let st := IState (bs "a &amp; \\* b") [(0, SRel 3 2)] (mk KRoot None []) 2 11 [] 0 0 [] [] in
+  match rule_entity st false with
+  | inr (st', Some n) => (n, last_child st') = (5, Some (mk (KTextSpecial (bs "&") (bs "&amp;") true) (Some (SRel 3 4, SRel 3 9)) []))
+  | _ => False end.
+Proof. vm_compute. reflexivity. Qed.
+
+Print Assumptions C05_root_covers_input.
+Print Assumptions C05_text_created_faithful.
+Print Assumptions C05_text_extended_faithful.
+Print Assumptions C05_entity_selects_markup.
+Print Assumptions C05_escape_selects_markup.
